@@ -20,22 +20,27 @@ LEVEL_TEXT = ('The reader is decided by an executable Lean model that mirrors to
               'are C04\'s executable model over the regenerated periodic table), validated against the real functions on every run '
               '(exhaustive over all short strings of the SMILES alphabet, generated and corpus strings, corruptions, hydrogen grids '
               'in every reaction role and for every combination of the keywords that act in the hydrogen loop), plus universally '
-              'quantified theorems about that model: no input can reach an unrelated exception (full), the parser result is well '
-              'formed, for every syntax tree of the grammar the parser builds exactly the graph an independent denotational '
-              'semantics assigns, and for ALL token lists (ring closures included) acceptance by parser + bond loop is equivalent to '
-              'being a sentence of the language with the ring-closure discipline of the spec, up to three named tolerated classes; '
-              'the same on smiles() itself for one-word strings; unbracketed organic atoms get the OpenSMILES hydrogen count up to '
-              'the lowest normal valence, bracket atoms keep the written count exactly when the valence model admits it; tables '
-              'regenerated from the source are proved equal to the charge / bond semantics of the language. An independent '
-              'reference reader and RDKit judge the real reader (graph, atom numbers, hydrogens, radicals, configuration) on every '
-              'run, and the reader is checked against itself (molecule vs reaction role) for every forwarded keyword argument. '
-              'Translation validation is the right level because the hand-written model is tied to the Python text by '
-              'differential execution, not by a proof about the Python text.')
+              'quantified theorems about that model: no input can reach an unrelated exception (full, hydrogen loop included); the '
+              'parser result is well formed; for every syntax tree (strict OpenSMILES grammar and the lenient atom (ringbond|branch)* '
+              'grammar) the parser builds exactly the graph an independent denotational semantics assigns; for ALL token lists and '
+              'for all tokenizable strings acceptance by parser + bond loop is equivalent to being a sentence with the ring-closure '
+              'discipline of the spec (opened numbers closed exactly once, never at the opening atom, agreeing bond symbols, no second '
+              'bond between a pair), up to the named tolerated classes (leading branch; for the strict grammar ring bonds after a '
+              'branch); smiles() itself reads exactly the sentences with valid atoms (one-word molecule strings); bracket atoms: '
+              '_atom_parse and the tokenizer invert the spelling (charge = the meaning of the spelling), and the characters-to-graph '
+              'theorem holds with bracket atoms; hydrogens on the graph of an accepted string: unbracketed organic atoms get the '
+              'OpenSMILES count up to the lowest normal valence, bracket atoms keep the written count exactly when the valence model '
+              'admits it; tables regenerated from the source are proved equal to the charge / bond semantics of the language. An '
+              'independent reference reader and RDKit judge the real reader (graph, atom numbers, hydrogens, radicals, '
+              'configuration) on every run; the reader is checked against itself (molecule vs reaction role) for every forwarded '
+              'keyword argument and against the documented meaning of each keyword. Translation validation is the right level '
+              'because the hand-written model is tied to the Python text by differential execution, not by a proof about the '
+              'Python text.')
 LEVEL_NOTE = ('Trusted: Lean kernel; gen_c03 translator (CPython sre parser for atom_re, AST of _tokenize); gen_periodic translator '
               '(valence tables); the harness canonicaliser; hand transcription of the Python control flow (validated, not proved); '
               'str.isnumeric/str.split modelled for ASCII only; calc_labels (ring perception for hybridization) and stereo '
               'assignment after graph construction are outside the model.')
-TECHNIQUE = 'Lean 4 executable model + theorems (invariants, denotational spec, inversion) + exhaustive/generated differential correspondence'
+TECHNIQUE = 'Lean 4 executable model + theorems (invariants, two-way simulation against a denotational spec, parser inversion, regex-matcher round trip) + exhaustive/generated differential correspondence + independent-reader / self-consistency / documented-keyword oracles'
 RULE = ('strings: (a) every string up to a length bound over the SMILES alphabet, (b) every bracket-atom body up to a bound '
         'over the bracket alphabet, (c) grammar-generated molecules/reactions/CXSMILES, (d) corpus + repository test strings, '
         '(e) single-edit corruptions of (c),(d), (f) grids: ring-bond symbol pairs, reaction fragment groupings, stereo '
